@@ -272,7 +272,9 @@ _ALSO = {
     "C03": ("the reader's lookahead byte is discarded only right after a peek that returned a byte (typestate over all "
             "abstract paths, with a fixpoint over functions that start by discarding); helpers the counter logic is split "
             "into (enter/leave style) are summarised by outcome (result variant, delta, tested) and accounted for at each "
-            "call site.",
+            "call site; a closure handed to a wrapper that takes the level, calls it and gives the level back counts as "
+            "charged; slicing the slice reader's input from its cursor is in range because the cursor never passes the end "
+            "of the slice (induction over every store to it).",
             "call-graph SCC + dataflow analysis of the depth counter (path-sensitive in Result/Option variants, with helper "
             "summaries), lookahead typestate analysis, panic-site inventory with guard discharge, natural-loop progress "
             "analysis, conditional constant propagation over the first input byte"),
@@ -280,15 +282,20 @@ _ALSO = {
             "handed to the visitor as borrowed data (needed by borrowing targets such as &str); deserialize_newtype_struct "
             "passes a deserializer over the very same value for all 15 value kinds; every other type of the crate that "
             "implements serde::Deserializer answers like the value deserializer; on the text path the integer boundary "
-            "magnitudes keep their representation (shared with C05).", None),
+            "magnitudes keep their representation (shared with C05) and each of the 256 byte values inside a string is "
+            "written by the default printer as text the default reader maps back to that byte (shared with C01); the "
+            "numeric serializer methods convert only in ways that cannot change the value.", None),
     "C05": ("the u64/i64 boundary of integer literals (|i64::MIN| accepted as negative, one more goes to the float path) "
             "is decided on the abstract paths of the number tail; the digit loop of parse_num_literal is evaluated on 88 "
             "boundary literals (u64::MAX, u64::MAX +- 1, 2^64, longest all-max-digit strings, with and without leading "
             "zeros) in radix 2, 8, 10 and 16: the exact value is handed on up to u64::MAX, the long-integer path is "
-            "taken above it, and no arithmetic overflows on the way (cases, not all literals); the number printer hands the sink "
+            "taken above it with a significand that is the value of the digits read minus those its exponent argument counts, "
+            "and no arithmetic overflows on the way (cases, not all literals); the number printer hands the sink "
             "exactly the text itoa / ryu produced (the shortest text that reads back as the same number), once, on every path.", None),
     "C06": ("when the contents of a list or vector fail to parse, next_value and next_datum return that very error - which "
-            "may be the stream's I/O error - whether or not closing the sequence fails as well (4 cases).", None),
+            "may be the stream's I/O error - whether or not closing the sequence fails as well (4 cases); the error type's "
+            "category map sends the I/O code to the I/O category and only Eof* codes to the EOF category, so a read failure "
+            "is never classified as end of input (shared with C19).", None),
     "C07": ("no buffering writer (whose pending bytes would be flushed in Drop with the error discarded) is interposed on "
             "the print path; local helpers that only forward to write_all count as the write_all they perform; a method with a "
             "`char` / `u8` parameter is compared with the default formatter's sub-range by sub-range of that parameter "
@@ -316,7 +323,8 @@ _ALSO = {
             "abstract evaluation of the macro crate's token parser per punctuation character, compared with byte classes "
             "and token kinds extracted from the text parser"),
     "C10": ("around each nested construct (list, vector, byte vector, quote shorthand) both APIs can raise exactly the same "
-            "error codes (recursion limit, end of input after a quote shorthand, closing delimiter; 8 cases); "
+            "error codes (recursion limit, end of input after a quote shorthand, closing delimiter; 8 cases), also with one "
+            "and two levels of the depth budget left (both APIs give out at the same nesting level; 8 more cases); "
             "the dotted-tail handling of the list twins maps each tail token to the same outcome; after a `.` both list "
             "parsers classify the following byte identically (dotted tail vs symbol starting with a dot) for all 256 byte "
             "values and end of input; the hand-written, iterative clone of the span information rebuilds the chain it is given "
@@ -330,6 +338,9 @@ _ALSO = {
             "datum (the element list of a byte vector, the closing delimiter).", None),
     "C12": ("the fused flag lives in the parser, not in the per-call iterator object, and no function reachable from the "
             "iterator entry points (including value_iter / datum_iter) clears it.", None),
+    "C18": ("'serializing x and deserializing again returns x' needs the numeric serializer methods to store the number "
+            "they are given: on the way they convert only in ways that cannot change the value (shared with C04); the "
+            "constructor of data errors is found by what it does, not by its name.", None),
     "C19": ("the stream's line/column counter starts a new line at exactly the byte the slice recount does (the line feed, "
             "nothing else, over all 256 byte values): the line of an error location counts the same lines for every kind of "
             "input (shared with C11); every proper prefix (two bytes or more) of each of the 12 character names the R6RS "
@@ -339,7 +350,9 @@ _ALSO = {
             "(a branch on anything else that returns with the tail attached hands the chain to the recursive drop glue); "
             "the cdr of a cell reached through a car is an element's payload, not the spine; `meta[1]` of the span pair counts "
             "as the cdr however the index is spelled, `meta[0]` and vector payloads as elements; passing a cdr to a callee "
-            "that continues only into its car does not follow the spine.", None),
+            "that continues only into its car does not follow the spine; 'nesting depth, which the parser bounds' is checked, "
+            "not assumed: every cycle of the parser's call graph is charged to the depth counter, directly or through a "
+            "closure-taking wrapper that charges around the call, and the counter is balanced (shared with C03).", None),
     "C15": ("association-list lookup by name and by value, evaluated abstractly over six synthetic lists with concrete "
             "key texts (entries that are not pairs, duplicate keys, the same text under each name kind, a dotted tail, "
             "a non-list): the answer is the cdr of the first entry whose key matches - any name kind with that text "
